@@ -35,7 +35,8 @@ def _case(args):
     for parser, lexer in configs:
         try:
             with guarded(10):
-                p = Lark(g, parser=parser, lexer=lexer, use_bytes=use_bytes)
+                # dynamic_complete: every token of *every* derivation is checked (explicit ambiguity), not only those of the resolved tree
+                p = Lark(g, parser=parser, lexer=lexer, use_bytes=use_bytes, **({'ambiguity': 'explicit'} if lexer == 'dynamic_complete' else {}))
         except LarkError as e:
             obs.append({'cfg': [parser, lexer], 'build_error': type(e).__name__})
             continue
@@ -143,6 +144,11 @@ def run(ctx, res):
         terms, ign = gen.term_set(rng, 1, 5, ascii_only=use_bytes)
         g = gen.term_grammar(terms, ign)
         texts = [gen.rand_text(rng, 10, nonascii=(not use_bytes and rng.random() < 0.15)) for _ in range(4)]
+        # terminals with an optional tail: texts holding a full match followed by more input (the prefixes of the match are what dynamic_complete tries)
+        tails = {'/a(\\n\\nb)?/': ['a\n\nb', 'a\n\nbb', 'a\n\n'], '/a(bc)?/': ['abc', 'abcc', 'ab'], '/0+(-0+)?/': ['0-0', '00-0-', '0-'], '/b(\\n c)?/': ['b\n c', 'b\n cb', 'b\n ']}
+        for _n, sp, _nl in terms:
+            if sp in tails:
+                texts += [rng.choice(tails[sp]) + gen.rand_text(rng, 3), gen.rand_text(rng, 2) + rng.choice(tails[sp])]
         cfgs = CONFIGS if i % 3 == 0 else [CONFIGS[i % 5], CONFIGS[(i // 5 + 1) % 5]]
         jobs.append((g, texts, use_bytes, cfgs))
     outs = pmap(_case, jobs, chunksize=2)
